@@ -102,14 +102,27 @@ impl SyncVecRd {
     pub fn wait_for(&self, end: usize) -> usize {
         let (lock, cvar) = &*self.decoded;
         let progress = cvar
-            .wait_while(lock.lock().unwrap(), |p| p.decoded < end && !p.failed)
+            .wait_while(lock.lock().unwrap(), |p| {
+                #[cfg(jubako_verif_loom)]
+                crate::verif::trace::emit(b'c', p.decoded, p.failed as usize);
+                p.decoded < end && !p.failed
+            })
             .unwrap();
+        #[cfg(jubako_verif_loom)]
+        crate::verif::trace::emit(b'g', progress.decoded, end);
         progress.decoded
     }
 
     #[inline]
     pub fn current_size(&self) -> usize {
         let (lock, _cvar) = &*self.decoded;
+        #[cfg(jubako_verif_loom)]
+        {
+            let progress = lock.lock().unwrap();
+            crate::verif::trace::emit(b's', progress.decoded, 0);
+            return progress.decoded;
+        }
+        #[cfg(not(jubako_verif_loom))]
         lock.lock().unwrap().decoded
     }
 
@@ -178,6 +191,7 @@ fn decode_to_end<T: Read + Send>(
         #[cfg(jubako_verif_loom)]
         if let Ok(read) = &read {
             buffer.shadow.written(uncompressed, uncompressed + read);
+            crate::verif::trace::emit(b'w', uncompressed, *read);
         }
         let (lock, cvar) = &*buffer.decoded;
         let mut progress = lock.lock().unwrap();
@@ -185,12 +199,16 @@ fn decode_to_end<T: Read + Send>(
             Ok(read) if read > 0 => {
                 uncompressed += read;
                 progress.decoded = uncompressed;
+                #[cfg(jubako_verif_loom)]
+                crate::verif::trace::emit(b'p', uncompressed, 0);
                 cvar.notify_all();
             }
             other => {
                 // Decoder error or end of the compressed stream before `total_size`.
                 // Readers must not wait for data which will never come.
                 progress.failed = true;
+                #[cfg(jubako_verif_loom)]
+                crate::verif::trace::emit(b'f', 0, 0);
                 cvar.notify_all();
                 return other.and(Err(std::io::Error::new(
                     std::io::ErrorKind::UnexpectedEof,
